@@ -297,7 +297,7 @@ func runMux(e *Env) {
 					}})
 				}
 				acts = append(acts, kernel.Action{Key: "wfault:" + sc.C.Name, Rank: 6, Weight: 1, Do: func() {
-					kind := []simnet.WriteFaultKind{simnet.WriteShort, simnet.WriteErr0, simnet.WriteStall}[tp.Next(3)]
+					kind := []simnet.WriteFaultKind{simnet.WriteShort, simnet.WriteErr0, simnet.WriteStall, simnet.WriteDeadlineErr}[tp.Next(4)]
 					k.Fault(fmt.Sprintf("conn.write-fault-armed-%d", kind))
 					sc.C.ArmWriteFault(simnet.WriteFault{Kind: kind, K: tp.Next(40)})
 				}})
